@@ -134,6 +134,14 @@ Theorem C18_no_other_closure_state : closure_state_ok = true.
 Proof. vm_compute. reflexivity. Qed.
 Print Assumptions C18_no_other_closure_state.
 
+(* the machines of the two closures are validated against the real closures over fixed alphabets of token kinds (what
+   h_parse -mode hooks drives); on the regenerated attachment table every token kind that can reach dataAccumulator /
+   collectGlobalBounds lies inside its alphabet, so C18_stateless_data_bounds_partial speaks about tokens the machines
+   are tied for *)
+Theorem C18_closure_alphabet : closure_alphabet_ok = true.
+Proof. vm_compute. reflexivity. Qed.
+Print Assumptions C18_closure_alphabet.
+
 (* (what fix 6a45f92 repaired) the lastNopToken variables of the WHERE / projection hooks used to live in the closures:
    a statement that stopped after "type" made the next statement's subject binding a TYPE alias.  [ws_run] is the OLD
    closure machine (state carried across statements). *)
